@@ -144,8 +144,8 @@ def exMonitors (s : St) (ex : Ex) (impl : String) : List Fail :=
     let cls := match p.pre with
       | some _ => "-"
       | none =>
-        if ex == .idle then
-          (if a.mit > s.enfGhost.idle && containsSub impl "local:idle_timeout" then classOfKind "mit" else "-")
+        if ex == .idle && containsSub impl "local:idle_timeout" then
+          (if a.mit > s.enfGhost.idle then classOfKind "mit" else "-")
         else match p.events.find? (fun ev => ev.fires s.enfGhost && containsSub impl (errorOf ev)) with
         | some ev => findingClass ex ev
         | none => "-"
